@@ -45,6 +45,11 @@ func init() { hlib.Register("scaled", quiet(cmdScaled)) }
 var scaledSmall = []int{65537, 70001, 131073}
 var scaledLarge = []int{1048581, 2097155}
 
+// the documented cap of strings and raw buffers (basic.MaxStringSize, Wire!StringCap): a string or buffer of exactly
+// that size is valid; lists of fixed-size elements have no cap of their own, so a list a little larger than that
+// many bytes is valid as well (a reader that routes small-element lists through the string path refuses it)
+const byteCap = 10 * 1024 * 1024
+
 const listCap = 4096 // documented cap of the reflection decoder and of lists of values (Wire!ListValueCap)
 
 // binding self-test (VERIF_SCALED_SELFTEST=1): the scale law applied one element short (c02 / c03: the real codecs
@@ -129,6 +134,21 @@ func cmdScaled(args []string) {
 			}
 			if f.Kind == "listcount" || f.Kind == "mapcount" {
 				targets = append(targets, listCap*f.Esz) // the documented count cap itself
+			}
+			if mode != "c08" {
+				switch {
+				case (f.Kind == "strlen" || f.Kind == "rawlen") && largeSeen["cap/"+f.Kind] < 2:
+					largeSeen["cap/"+f.Kind]++
+					targets = append(targets, byteCap) // exactly the cap: still valid
+				case f.Kind == "listcount" && f.Esz == 1 && largeSeen["cap/list1/"+sig] < 1 && largeSeen["cap/list1"] < 5:
+					// lists of one-byte elements (laid out like a string): one per signature
+					largeSeen["cap/list1/"+sig]++
+					largeSeen["cap/list1"]++
+					targets = append(targets, byteCap+4096) // more bytes than a string may have
+				case f.Kind == "listcount" && f.Esz > 1 && f.Esz <= 8 && largeSeen[fmt.Sprint("cap/list/", f.Esz)] < 1:
+					largeSeen[fmt.Sprint("cap/list/", f.Esz)]++
+					targets = append(targets, byteCap+4096*f.Esz)
+				}
 			}
 			for _, tg := range targets {
 				count := (tg + f.Esz - 1) / f.Esz
